@@ -101,6 +101,10 @@ class ByKey:
     ensures = [
         "implies(isinstance(data, dict) and %s in data, len(out) == 1 and %s)" % (ATTR, WFO("data[%s]" % ATTR, "data", ATTR, KESC % ("str(%s)" % ATTR))),
         "implies(isinstance(data, dict) and not (%s in data) and not int_ok(str(%s)), len(out) == 0)" % (ATTR, ATTR),
+        # text/integer key mismatch: the child under the INTEGER key, whose coordinates name that integer key
+        "implies(isinstance(data, dict) and not ({a} in data) and int_ok(str({a})) and int(str({a})) in data,"
+        " len(out) == 1 and {wf})".format(a=ATTR, wf=WFO("data[int(str(%s))]" % ATTR, "data", "int(str(%s))" % ATTR, KESC % ("str(%s)" % ATTR))),
+        "implies(isinstance(data, dict) and not ({a} in data) and int_ok(str({a})) and not (int(str({a})) in data), len(out) == 0)".format(a=ATTR),
         "implies(isinstance(data, list) and int_ok(str({a})) and -len(data) <= int(str({a})) and int(str({a})) < len(data),"
         " len(out) == 1 and {wf})".format(a=ATTR, wf=WFO("data[int(str(%s))]" % ATTR, "data", "int(str(%s))" % ATTR, "'[{}]'.format(int(str(%s)))" % ATTR)),
         "implies(isinstance(data, list) and int_ok(str({a})) and not (-len(data) <= int(str({a})) and int(str({a})) < len(data)), len(out) == 0)".format(a=ATTR),
@@ -279,3 +283,57 @@ for _name in ("distinct", "has_child", "name", "max", "min", "parent", "unique")
         _K.__name__ = "Keyword_" + n
         return _K
     _mk(_name)
+
+
+NODES = "yamlpath.common.nodes.Nodes."
+
+
+@contract(NODES + "wrap_type", props=["C15"])
+class WrapType:
+    """ruamel wrapper construction (CommentedSeq(value), ScalarInt(value), ...): library constructors, not modelled."""
+    assumed = True
+    notes = "library constructors; total for the values a query passes (None or a plain scalar)"
+    raises = []
+    opts = {"returns": "Any"}
+
+
+@contract(NODES + "build_next_node", props=["C15"])
+class BuildNextNode:
+    assumed = True
+    notes = "builds a fresh ruamel container / wrapper for the next segment; reads the parsed path only"
+    params = {"yaml_path": "YAMLPath", "depth": "int"}
+    raises = []
+    opts = {"returns": "Any"}
+
+
+@contract(NODES + "append_list_element", props=["C15"])
+class AppendListElement:
+    """Appends exactly one element; ValueError only on the anchor-naming arm."""
+    assumed = True
+    notes = "list.append plus ruamel comment bookkeeping (data.ca.items); the length effect is what callers rely on"
+    ghost = {"n0": "len(data)"}
+    requires = ["isinstance(data, list)"]
+    modifies = ["data"]
+    ensures = ["len(data) == n0 + 1"]
+    raises = []
+    opts = {"returns": "Any"}
+
+
+@contract(PR + "_get_optional_nodes", props=["C15"])
+class OptionalNodes:
+    """Optional-match driver (also the creation path of set_value): for ANY data, any parsed path and depth, only
+    the YAMLPathException family escapes -- in particular the list-padding arm `data[newidx]` after the append loop.
+    The recursive call may create nodes anywhere below: frame `*` (every container content is havoced)."""
+    params = dict(KWP, yaml_path="YAMLPath", depth="int", kw_relay_segment="Any")
+    assume_fields = PATH_FIELDS
+    requires = INV + ["0 <= depth"]
+    inline = [YP + "escaped", YP + "unescaped"]
+    modifies = ["*"]
+    raises = ["YAMLPathException"]
+    loops = {
+        "for _ in range(len(data) - 1, newidx)": {
+            "ghost": {"n0": "len(data)"},
+            "invariant": ["len(data) == n0 + iters"],
+        },
+    }
+    opts = dict(SEG_INV, yields="NodeCoords", decreases="len(yaml_path) - depth")
